@@ -1122,6 +1122,24 @@ class Builder:
                     for mm in re.finditer(r"(?<![A-Za-z0-9_.])" + re.escape(recv) + r"\s*\.\s*insert\s*\(", m[a:b]):
                         edits.append(Edit(a + mm.start(), a + mm.end(), [Seg("vx_map_insert_bytes(%s, " % recv, "repo", fn=qual)]))
                         self.count("R30")
+            if rule[0] == "R31":
+                # E.and_then(|v| BODY) -> (match E { Some(v) => BODY, None => None })   (the definition of Option::and_then; lets Verus read a
+                # closure that captures a local by `&mut`)
+                for mm in re.finditer(r"\.\s*and_then\s*\(\s*\|\s*([A-Za-z_][A-Za-z0-9_]*)\s*\|", m[a:b]):
+                    op = a + mm.start() + m[a + mm.start():a + mm.end()].index("(")
+                    cp = rs.match_close(m, op)
+                    k = chain_start(m, a, a + mm.start())
+                    edits.append(Edit(k, k, [Seg("(match ", "repo", fn=qual)]))
+                    edits.append(Edit(a + mm.start(), a + mm.end(), [Seg(" { Some(%s) => { " % mm.group(1), "repo", fn=qual)]))
+                    edits.append(Edit(cp, cp + 1, [Seg(" } None => None })", "repo", fn=qual)], order=5))
+                    self.count("R31")
+            if rule[0] == "R32":
+                # log::warn!(..) etc. have no effect on the result: removed
+                for mm in re.finditer(r"(?<![A-Za-z0-9_])log\s*::\s*(?:warn|info|debug|error|trace)\s*!\s*\(", m[a:b]):
+                    op = a + mm.end() - 1
+                    cp = rs.match_close(m, op)
+                    edits.append(Edit(a + mm.start(), cp + 1, [Seg("()", "repo", fn=qual)]))
+                    self.count("R32")
             if rule[0] == "R18":
                 # `E.then(|| BODY)` -> `(if E { Some(BODY) } else { None })`  (the definition of bool::then)
                 for mm in re.finditer(r"\.\s*then\s*\(\s*\|\s*\|", m[a:b]):
